@@ -50,6 +50,7 @@ static int build(int cfg)
         NC.rpdo[i].present = 1; NC.rpdo[i].cobid = COBASE[0] + 0x100u * (uint32_t)i; NC.rpdo[i].type = 255; NC.rpdo[i].nmap = 1; NC.rpdo[i].map[0] = i == PN ? M8 : M16;
         NC.tpdo[i].present = 1; NC.tpdo[i].cobid = COBASE[1] + 0x100u * (uint32_t)i; NC.tpdo[i].type = 254; NC.tpdo[i].nmap = 1; NC.tpdo[i].map[0] = i == PN ? M8 : M16;
     }
+    NC.tpdo[PN].event = 2;
     NC.operational = cfg & 1;
     nc_build();
     (void)CONodeGetErr(&Node);
@@ -142,6 +143,23 @@ static void probe_tpdo(const char *when)
     if (OBS.tx[0].dlc != want || memcmp(OBS.tx[0].d, d, (size_t)want)) { char a[40]; w_fmt_frame(a, sizeof a, &OBS.tx[0]); mc_fail("pdo-activation-differs", "%s: TPDO frame %s does not carry the stored mapping (%d bytes: %02X %02X %02X %02X ...)", when, a, want, d[0], d[1], d[2], d[3]); }
 }
 
+/* time passes after an activation (on a copy of the state): a TPDO activated with a synchronous type stays silent without SYNC, one
+ * activated as event-driven (event time 2 ms, fixed) sends - what an earlier activation with another type left behind must not survive */
+static void probe_time(const char *when)
+{
+    static uint8_t *snap; const MP *p = &M.p[1]; int n;
+    if (!clean(p) || p->count == 0) return;
+    if (!snap) snap = malloc(w_snap_size());
+    w_save(snap);
+    OBS.ntx = 0; OBS.ncb = 0;
+    for (int k = 0; k < 8; k++) w_tick(&Node, 1);
+    n = nc_count_tx(p->cob & 0x7FF);
+    if (p->type <= 240 && n != 0) mc_fail("pdo-activation-differs", "%s: TPDO #%d is stored with the synchronous type %d but sent %d frame(s) within 8 ticks without any SYNC", when, PN, p->type, n);
+    else if (p->type >= 254 && n == 0) mc_fail("pdo-activation-differs", "%s: TPDO #%d is stored as event-driven (type %d, event time 2 ms) but stayed silent for 8 ticks", when, PN, p->type);
+    w_restore(snap);
+    OBS.ntx = 0; OBS.ncb = 0;
+}
+
 static void probe_rpdo(const char *when)
 {
     const MP *p = &M.p[0]; static const uint8_t pay[8] = { 0x91, 0x92, 0x93, 0x94, 0x95, 0x96, 0x97, 0x98 }; uint8_t none[8] = { 0 }; int pos = 0;
@@ -204,7 +222,7 @@ static int one_write(int e, int pdo, int kind, int sub, uint32_t val)
     if (verdict == V_REFUSE && code && r != code) { mc_fail("pdo-write-abort-code", "'%s' refused with %08X, expected %08X", ev_name(e), r, code); return 1; }
     { uint32_t old_id = p->cob;
       if (r == 0) *p = next;
-      if (r == 0 && revalidated && M.op) { if (pdo) probe_tpdo("re-validation while OPERATIONAL"); else probe_rpdo("re-validation while OPERATIONAL"); }
+      if (r == 0 && revalidated && M.op) { if (pdo) { probe_tpdo("re-validation while OPERATIONAL"); probe_time("re-validation while OPERATIONAL"); } else probe_rpdo("re-validation while OPERATIONAL"); }
       if (r == 0 && kind == 0 && !valid(p) && M.op) { if (probe_invalid(pdo, "invalidation while OPERATIONAL", old_id)) return 1; }
       if (kind == 0 && M.op) { if (probe_bystanders(r == 0 ? "after an accepted COB-ID write" : "after a refused COB-ID write")) return 1; } }
     return 0;
@@ -212,7 +230,7 @@ static int one_write(int e, int pdo, int kind, int sub, uint32_t val)
 
 static int step(int e)
 {
-    if (e == E_START) { int was = M.op; M.op = 1; nc_nmt(1, 0); if (!was) { if (valid(&M.p[1])) probe_tpdo("entering OPERATIONAL"); if (valid(&M.p[0])) probe_rpdo("entering OPERATIONAL"); (void)probe_bystanders("entering OPERATIONAL"); } }
+    if (e == E_START) { int was = M.op; M.op = 1; nc_nmt(1, 0); if (!was) { if (valid(&M.p[1])) { probe_tpdo("entering OPERATIONAL"); probe_time("entering OPERATIONAL"); } if (valid(&M.p[0])) probe_rpdo("entering OPERATIONAL"); (void)probe_bystanders("entering OPERATIONAL"); } }
     else if (e == E_PREOP) { M.op = 0; nc_nmt(128, 0); }
     else {
         int pdo = e / EPP, k = e % EPP;
